@@ -297,14 +297,4 @@ def collect(outdir):
 
 
 def validate(trs, workdir, timeout=1500):
-    os.makedirs(workdir, exist_ok=True)
-    tf = os.path.join(workdir, "pychains.ndjson")
-    with open(tf, "w") as f:
-        for ev in trs:
-            f.write(json.dumps(ev) + "\n")
-    r = tlc.run_tlc("TracePy", {}, workdir, init="PInit", next_="PNext", view=None, action_constraints=(),
-                    workers=1, timeout=timeout, coverage=False, env_extra={"TRACE_FILE": tf})
-    log = open(os.path.join(workdir, "tlc.log")).read()
-    m = re.search(r'<<"TRACES-CHECKED", (\d+), "rejected", (\d+)>>', log)
-    rejected = re.findall(r'<<"TRACE-REJECTED", (\d+), (\d+), "([^"]*)", "(.*)">>', log)
-    return r, (int(m.group(1)), int(m.group(2))) if m else None, rejected
+    return trmod.validate_batched("TracePy", {}, "PInit", "PNext", trs, workdir, "pychains.ndjson", timeout=timeout)
